@@ -21,7 +21,6 @@ EXIT_ALLOW = {
     ("libwild::subprocess::run_in_subprocess", "std::process::exit"): (1, "status computed by subprocess_result", "from-ok:libwild::subprocess::subprocess_result"),
     ("wild::main", "libwild::error::report_error_and_exit"): (1, "error of wild::run", "on-err:wild::run"),
     ("libwild::args::elf::setup_argument_parser::{closure}", "std::process::exit"): (1, "--help: prints help and exits 0 before any link work is started", "const-zero"),
-    ("libwild::save_dir::SaveDirState::finish", "std::process::exit"): (1, "WILD_SAVE_SKIP_LINKING: explicit request not to link", "const-zero-env"),
 }
 
 LINK_RUN = {"libwild::Linker::run"}
@@ -153,6 +152,7 @@ def run(ctx, rep):
             else:
                 rep.ob("io-must-use", f"{stable(b.key)}->{ck}", True, "result is used", b.file, t["l"])
     rep.floor("io-must-use", "Result-returning calls in file_writer", n_calls, 12)
+    rep.assume("WILD_SAVE_SKIP_LINKING (an explicit request to only populate the save directory) makes Linker::run return Ok without an output by design")
     rep.assume("a panic or abort terminates the process with a non-zero status (Rust runtime: 101 / SIGABRT)")
     rep.assume("OOM and SIGSEGV behaviour, and mmap write-back failures, are outside the analysed program")
 
